@@ -503,6 +503,41 @@ class Interp:
             if k in ("tuple", "struct", "tuple_struct") and isinstance(inner, (VRec, VTup)):
                 return self._match_ref(pat, val.place, inner, st, fr)
             val = inner
+        if k == "slice":
+            # [p0, p1, ..] / [p0, rest @ .., pn] on a sequence: matches iff the length fits; elements are read by position
+            import lax_model
+            while isinstance(val, VRec) and set(val.f) == {"0"}:
+                val = val.f["0"]
+            if not isinstance(val, VSeq):
+                raise Unsupported("slice pattern on " + type(val).__name__)
+            nb, na = len(pat.get("before") or []), len(pat.get("after") or [])
+            n = t_len(val.t)
+            has_mid = pat.get("mid") is not None
+            cond = ("cmp", "ge", n - (nb + na)) if has_mid else ("cmp", "eq", n - (nb + na))
+            yes, no = self.branch(st, cond)
+            matched = []
+            for s1 in yes:
+                states = [s1]
+                for i, p in enumerate(pat.get("before") or []):
+                    nxt = []
+                    for s2 in states:
+                        m, u = self.match_pat(p, lax_model.seq_elem(self, s2, val, Poly.const(i)), s2, fr)
+                        nxt.extend(m)
+                    states = nxt
+                for j, p in enumerate(pat.get("after") or []):
+                    nxt = []
+                    for s2 in states:
+                        m, u = self.match_pat(p, lax_model.seq_elem(self, s2, val, n - na + j), s2, fr)
+                        nxt.extend(m)
+                    states = nxt
+                if has_mid:
+                    nxt = []
+                    for s2 in states:
+                        m, u = self.match_pat(pat["mid"], VSeq(lax_model.mk_slice(s2, val.t, Poly.const(nb), n - na)), s2, fr)
+                        nxt.extend(m)
+                    states = nxt
+                matched.extend(states)
+            return matched, no
         if k == "tuple":
             if isinstance(val, VTop):
                 items = [VTop(val.why) for _ in pat["pats"]]
